@@ -20,7 +20,7 @@ def run(ctx):
         r = ctx.gen_to_file("Gen_Stmt", ctx.cfg_variant("Gen_Stmt.cfg", dict(MaxArgs=ma, Emit="TRUE")), path, workers=2, label="gen-stmt")
         if r["emitted"] < 5:
             raise Broken("Gen_Stmt emitted nothing")
-        for s in ([ctx.seed, ctx.seed + 1, ctx.seed + 2, ctx.seed + 3] if thorough else [ctx.seed]):
+        for s in ([ctx.seed, ctx.seed + 1, ctx.seed + 2, ctx.seed + 3] if thorough else [ctx.seed, ctx.seed + 1]):   # odd seeds: adversarial argument strings
             ctx.run_replay("replay-stmt", ["-in", path, "-seed", str(s)], "replay-stmt", sigkeys=("kind",))
         ctx.cov["exhaustive"] = True
     elif ctx.pid == "C12":
@@ -37,6 +37,11 @@ def run(ctx):
             ctx.run_replay("replay-sql", ["-in", path, "-seed", seed], "replay-sql-" + sel, sigkeys=("kind", "dsn"))
             os.remove(path)
         ctx.design("Gen_Stmt", "Gen_Stmt.cfg", label="rows", workers=4)
+        # data source names, Exec, transactions (driver surface around the rows), bound arguments
+        path = os.path.join(ctx.work, "dsn.ndjson")
+        r = ctx.gen_to_file("Gen_Stmt", ctx.cfg_variant("Gen_Stmt.cfg", dict(Emit="TRUE", MaxArgs=2)), path, workers=2, label="gen-dsn+stmt")
+        ctx.run_replay("replay-dsn", ["-in", path, "-seed", seed], "replay-dsn", sigkeys=("kind",))
+        ctx.run_replay("replay-stmt", ["-in", path, "-seed", seed], "replay-stmt(rows of bound queries)", sigkeys=("kind",))
         ctx.cov["exhaustive"] = True
     else:
         ctx.cov["rule"] = ("UpdogSQL: connection cache with reference counts, pool slots per sql.DB, file locks; 2 handles x 2 threads x 2 files, all interleavings up to MaxSteps: no use "
